@@ -445,6 +445,8 @@ func (c *Cfg) options(e *env) []mux.Option {
 			opts = append(opts, mux.WithAnyInterceptor(rule))
 		case "lower":
 			opts = append(opts, mux.WithInterceptor(matchLower, rule))
+		case "even":
+			opts = append(opts, mux.WithInterceptor(func(s string) bool { return len(s) > 0 && len(s)%2 == 0 }, rule))
 		}
 	}
 	if c.Trace {
